@@ -72,7 +72,7 @@ def effects_of(leaf):
             out.append(("del", vkey(e[1])))
         elif e[0] == "effect":
             out.append(("effect", e[2], e[3]))
-        elif e[0] == "call" and e[1].split(".")[-1] in EFFECT_CALLS:
+        elif e[0] == "call" and "." in e[1] and e[1].split(".")[-1] in EFFECT_CALLS:
             out.append(("call", e[1].split(".")[-1], e[5] if len(e) > 5 else None, e[2], e[3]))
         elif e[0] == "loop":
             out.append(("loop", e[1]))
